@@ -17,6 +17,7 @@ import (
 	"fmt"
 	"os"
 	"runtime"
+	"slices"
 	"sort"
 	"sync"
 	"time"
@@ -490,7 +491,11 @@ func (w *worker) checkRefused(c *caseDesc) {
 		if v.OK {
 			res = "which is the encoding of a different message: " + ref.Describe(&back, udp)
 		}
-		w.violate(c.Coder+"-encode-accepts-"+c.Class, fmt.Sprintf("Encode returned (%d, nil) for a message outside the preconditions (%s) and wrote %s, %s", n, c.Class, ref.Hex(w.backing[:max(0, min(n, maxWire))]), res), c, -1, nil)
+		sig := c.Coder + "-encode-accepts-" + c.Class
+		if c.Class == "option-value>65804" { // option marshalling is shared by both coders
+			sig = "encode-accepts-" + c.Class
+		}
+		w.violate(sig, fmt.Sprintf("Encode returned (%d, nil) for a message outside the preconditions (%s) and wrote %s, %s", n, c.Class, ref.Hex(w.backing[:max(0, min(n, maxWire))]), res), c, -1, nil)
 		return
 	}
 	if errors.Is(err, message.ErrTooSmall) {
@@ -514,7 +519,6 @@ func (w *worker) checkRefused(c *caseDesc) {
 
 var optionIDs = []int{1, 4, 6, 11, 12, 13, 14, 15, 23, 60, 258, 268, 269, 270, 2000, 65535}
 var lengthAlphabet = []int{0, 1, 8, 12, 13, 14, 255, 268, 269, 270, 1034, 65804}
-var lengthAlphabetSmall = []int{0, 1, 12, 13, 14, 268, 269, 270}
 
 // elements returns every (id,len) pair of the alphabet that is registry-legal for ordinary
 // codes, plus the registry maximum of each registered id; ordered by id, then length.
@@ -604,7 +608,7 @@ func main() {
 	}
 
 	sweep := ev.Pick(r, 300, 600)
-	maxK := 4
+	maxK := ev.Pick(r, 3, 4)
 
 	headerLists := [][]optSpec{nil, {{11, 1}}, {{1, 0}, {11, 13}, {11, 0}, {60, 4}}}
 	mids := []int{0, 1, 255, 256, 65534, 65535}
@@ -703,16 +707,11 @@ func main() {
 
 	// ---- grid B: every ascending multiset of <= K options x 2 headers x payload {0,1,2}
 	elFull := elements(lengthAlphabet, true)
-	elSmall := elements(lengthAlphabetSmall, false)
 	type hdr struct{ ty, mid, code, tl int }
 	hdrs := []hdr{{0, 0, 1, 0}, {3, 65535, 0x45, 8}}
 	for k := 0; k <= maxK; k++ {
 		el := elFull
-		name := fmt.Sprintf("B lists of %d (full lengths)", k)
-		if k == 4 && !r.Thorough() {
-			el = elSmall
-			name = fmt.Sprintf("B lists of %d (short lengths)", k)
-		}
+		name := fmt.Sprintf("B lists of %d", k)
 		k := k
 		phase(name, func(w *worker, sh int) int64 {
 			var ord, n int64
@@ -738,7 +737,6 @@ func main() {
 		})
 	}
 	r.Set("option_elements_full", int64(len(elFull)))
-	r.Set("option_elements_short", int64(len(elSmall)))
 	r.Sample(map[string]any{"grid": "B", "case": "coder=tcp code=69 token=a0..a7 options(id,len)=[(13,268) (269,65804) (65535,14)] payload_len=2"})
 
 	// ---- grid C: stream body length classes (and the same payload lengths on datagrams)
@@ -876,7 +874,7 @@ func collect(r *ev.Run, workers []*worker, grids map[string]int64) {
 		refusals += w.nontriv
 		all = append(all, w.hashes...)
 	}
-	sort.Slice(all, func(i, j int) bool { return all[i] < all[j] })
+	slices.Sort(all)
 	var distinct int64
 	for i := range all {
 		if i == 0 || all[i] != all[i-1] {
@@ -894,7 +892,7 @@ func collect(r *ev.Run, workers []*worker, grids map[string]int64) {
 		}
 		r.Set("grid_sizes", g)
 	}
-	r.Set("rule", "grid (simplest first): A = token length 0..8 (two byte patterns) x all 256 codes x type 0..3 x MID {0,1,255,256,65534,65535} x 3 option lists x payload {0,1}; A2 = every MID 0..65535 x every type x 2 messages; E = full cross of small header values with every single short option; B = every ascending multiset (equal numbers in every value order) of up to 3 (thorough: 4) options over numbers {1,4,6,11,12,13,14,15,23,60,258,268,269,270,2000,65535} with value lengths {0,1,8,12,13,14,255,268,269,270,1034,65804} cut to the registry-legal ones plus each registry min/max (lists of 4, and lists of 3 in the quick tier, use lengths {0,1,12,13,14,268,269,270}) x 2 headers x payload {0,1,2}; C = for every single option and 4 longer lists the payload length that makes the stream body 0..14, 267..271, 65803..65807, 70000, 131072, 2^20+1; D = out-of-precondition ring (token 9..256 bytes, type <0 / 4..255 / >255, MID <0 / >65535, code >255, option value >65804 bytes). Every message goes through Size, Encode with every buffer length 0..size-1 when size <= sweep limit (300 quick / 600 thorough; a 14-point ring of lengths above), Encode exact, Decode, (stream) DecodeHeader + DecodeWithHeader, pool MarshalWithEncoder and UnmarshalWithDecoder, on both coders. Non-trivial = a distinct (by 64-bit hash of the message description) in-precondition message with at least one option or a payload, plus every refusal case.")
+	r.Set("rule", "grid (simplest first): A = token length 0..8 (two byte patterns) x all 256 codes x type 0..3 x MID {0,1,255,256,65534,65535} x 3 option lists x payload {0,1}; A2 = every MID 0..65535 x every type x 2 messages; E = full cross of small header values with every single short option; B = every ascending multiset (equal numbers in every value order) of up to 3 (thorough: 4) options over numbers {1,4,6,11,12,13,14,15,23,60,258,268,269,270,2000,65535} with value lengths {0,1,8,12,13,14,255,268,269,270,1034,65804} cut to the registry-legal ones plus each registry min/max x 2 headers x payload {0,1,2}; C = for every single option and 4 longer lists the payload length that makes the stream body 0..14, 267..271, 65803..65807, 70000, 131072, 2^20+1; D = out-of-precondition ring (token 9..256 bytes, type <0 / 4..255 / >255, MID <0 / >65535, code >255, option value >65804 bytes). Every message goes through Size, Encode with every buffer length 0..size-1 when size <= sweep limit (300 quick / 600 thorough; a 14-point ring of lengths above), Encode exact, Decode, (stream) DecodeHeader + DecodeWithHeader, pool MarshalWithEncoder and UnmarshalWithDecoder, on both coders. Non-trivial = a distinct (by 64-bit hash of the message description) in-precondition message with at least one option or a payload, plus every refusal case.")
 	r.Assume(
 		"the size formula and the registry in props/codecref are written from RFC 7252 §3/§5.10, RFC 7641, RFC 7959, RFC 7967 and RFC 8323 §3.2, not from the implementation",
 		"header fields, option lists and payload lengths are treated independently by the codec: grid A crosses all header values with 3 option lists, grids B/C cross all option lists / length classes with 2 headers; grid E is a full cross at the smallest sizes as a spot check of this assumption",
